@@ -60,7 +60,7 @@ Definition slice_to {A} (l : list A) (i : Z) : res (list A) := slice l 1 i.
 Definition mal {A} (n : Z) (x : A) : res (list A) :=
   if n <? 0 then Undef else Ok (repeat x (Z.to_nat n)).
 
-(* `a modulo b`: C remainder (srem); b = 0 kills the process with SIGFPE, no Laufzeitfehler: outside the model *)
-Definition zrem (a b : Z) : res Z := if b =? 0 then Undef else Ok (Z.rem a b).
+(* `a modulo b`: C remainder (srem); b = 0 is a Laufzeitfehler ("Der Rest einer Division durch 0 ist nicht definiert") *)
+Definition zrem (a b : Z) : res Z := if b =? 0 then Err else Ok (Z.rem a b).
 
 Definition b2z (b : bool) : Z := if b then 1 else 0.
